@@ -381,7 +381,11 @@ def main():
         print(f"baseline for {pid}: {len(baseline[pid])} obligations")
     expected = set(baseline.get(pid, []))
     if not a.only:
-        gone = sorted(expected - set(summ))
+        # only contract-level obligations are census-checked (postconditions, exceptional outcomes, invariants,
+        # lemmas, covers); obligations derived from incidental expressions of the code (an index in bounds, a
+        # divisor non-zero, a callee precondition at a call site) may disappear under a harmless edit
+        incidental = ("pre", "bounds", "shape", "zerodiv", "assert")
+        gone = sorted(n for n in expected - set(summ) if n.split("#", 1)[1].split(":")[0] not in incidental)
         # an obligation can legitimately disappear only if its function failed to execute (already an error)
         if gone and not run.errors:
             run.errors.append(f"census mismatch: {len(gone)} baseline obligations were not generated, e.g. {gone[:3]}")
@@ -395,6 +399,7 @@ def main():
     n_dis = sum(1 for n, i in summ.items() if "#cover" not in n and i["status"] == "proved")
     os.makedirs(os.path.join(OUT, "replays", pid), exist_ok=True)
     lines = []
+    refuted_groups = {}
     for nm, info in sorted(summ.items()):
         st = info["status"]
         if st in ("proved", "covered"):
@@ -403,13 +408,9 @@ def main():
             if nm in known_obl:
                 run.known.append((nm, known_obl[nm]))
                 continue
-            rep = replay_refuted(run, nm, info, None)
-            safe = re.sub(r"[^A-Za-z0-9_.=-]+", "_", nm)[:150]
-            path = os.path.join(OUT, "replays", pid, safe + ".json")
-            rep["replay_cmd"] = f"./check {pid} --replay {path}"
-            json.dump(rep, open(path, "w"), indent=1, default=str)
-            tail = "" if rep.get("confirmed_on_real_code") else " no-failing-input-found"
-            run.violations.append((nm, path, tail))
+            # the same clause refuted under several configurations of one contract is ONE violation:
+            # grouped by the name without its [configuration] label, replayed below
+            refuted_groups.setdefault(re.sub(r"\[[^\]]*\]", "", nm), []).append((nm, info))
         elif st == "unknown":
             # undecided by the solvers.  If the instantiated query left a candidate model, replay it on
             # the real code: a candidate that makes the REAL function break its contract is a genuine
@@ -433,6 +434,23 @@ def main():
             pass
         elif st == "error":
             run.errors.append(f"{nm}: {info['worst'][0]['detail'] if info['worst'] else ''}")
+    for gkey, members in sorted(refuted_groups.items()):
+        rep = None
+        for nm, info in members[:4]:
+            r = replay_refuted(run, nm, info, None)
+            r["obligation"] = nm
+            if rep is None or r.get("confirmed_on_real_code"):
+                rep = r
+            if r.get("confirmed_on_real_code"):
+                break
+        rep["refuted_under_configurations"] = [nm for nm, _ in members]
+        safe = re.sub(r"[^A-Za-z0-9_.=-]+", "_", gkey)[:150]
+        path = os.path.join(OUT, "replays", pid, safe + ".json")
+        rep["replay_cmd"] = f"./check {pid} --replay {path}"
+        json.dump(rep, open(path, "w"), indent=1, default=str)
+        tail = "" if rep.get("confirmed_on_real_code") else " no-failing-input-found"
+        label = gkey if len(members) == 1 else f"{gkey} (refuted under {len(members)} configurations, e.g. {members[0][0]})"
+        run.violations.append((label, path, tail))
     # ---- bounded stand-in
     bounded = None
     if P.get("bounded") and not a.no_bounded and not a.only:
